@@ -1,5 +1,5 @@
 (* C05 specifications: what the property demands, stated independently of the algorithms. *)
-From Gv Require Import lib.Bytes lib.Gql C05.Lex C05.Parse C05.Limits C05.Print.
+From Gv Require Import lib.Bytes lib.Gql C05.Lex C05.Parse C05.Limits C05.Print C15.Model.
 From Coq Require Import ZArith.
 
 (* ---- real selection depth and field count of a document (on the tree) ---- *)
@@ -181,3 +181,12 @@ Definition def_stable_b (d : definition) : bool :=
   | DFrag f => dirs_stable_b (fr_dirs f) && forallb sel_stable_b (fr_sels f)
   end.
 Definition doc_strings_stable_b (d : document) : bool := forallb def_stable_b d.
+
+(* ---- block strings through the lexer and the printer (theorem c05_block_string_requotable) ----
+   The lexer's trimming is C15's model of readBlockString (C15.Model.blex_step: block_start / block_end /
+   go_block_lexable of the text between two delimiters); the driver compares it with every terminated
+   block-string token of the implementation. *)
+(* what the parser stores for the text between the delimiters: Literal.Start .. Literal.End *)
+Definition stored (body : bytes) : bytes := firstn (block_end body - block_start body) (skipn (block_start body) body).
+(* what ast.PrintValue writes between the delimiters *)
+Definition printed (raw : bytes) : bytes := raw ++ (if ends_quote_or_backslash raw then nl else []).
